@@ -22,11 +22,12 @@ def c_vec(v):
 
 def c_lib(lib):
     A = c12docs.atoms(lib)
+    S = c12docs.sym_atoms(lib)
     geoms = []
     for g in lib['geoms']:
         prims = []
         for p in g['prims']:
-            prims.append(ctuple(cN(0 if p['symbol'] is None else A[p['symbol']]),
+            prims.append(ctuple(cN(0 if p['symbol'] is None else S[p['symbol']]),
                                 clist([c_vec(v) for v in g['verts']]),
                                 'None' if not p['normals'] else '(Some %s)' % clist([c_vec(v) for v in g['normals']])))
         geoms.append(ctuple(cN(A[g['id']]), clist(prims)))
@@ -46,7 +47,8 @@ def c_transform(t):
 
 
 def c_binds(A, binds):
-    return clist([ctuple(cN(A[s]), cN(A[m])) for s, m in binds])
+    S = A['__symbols__']
+    return clist([ctuple(cN(S[s]), cN(A[m])) for s, m in binds])
 
 
 def c_node(A, n, names):
@@ -95,7 +97,8 @@ def dependency_order(case):
 
 
 def c_case(lib, case, obs):
-    A = c12docs.atoms(lib)
+    A = dict(c12docs.atoms(lib))
+    A['__symbols__'] = c12docs.sym_atoms(lib)
     table = c12docs.resolve(case)
     names = {i: 'x_%s' % i for i in table}
     lets = ''
